@@ -156,6 +156,9 @@ pub fn install_hook() {
             let short: String = msg.chars().take(200).collect();
             eprintln!("panicked at {file}:{line}: {short}");
             if show {
+                if bt_text.is_empty() {
+                    bt_text = std::backtrace::Backtrace::force_capture().to_string();
+                }
                 eprintln!("{bt_text}");
             }
             LAST.with(|l| *l.borrow_mut() = Some(PanicRec { file, line, msg, frame }));
@@ -180,6 +183,58 @@ pub fn pcatch<R>(f: impl FnOnce() -> R) -> Result<R, PanicRec> {
     }
 }
 
+/// Name of the function enclosing `line` of a repository source file, found by scanning
+/// the source upwards for the nearest `fn <name>` (robust against inlining, unlike a
+/// backtrace frame, and against line drift, unlike the line number). Cached per location.
+pub fn enclosing_fn(file: &str, line: u32) -> String {
+    static CACHE: Mutex<Option<std::collections::HashMap<(String, u32), String>>> = Mutex::new(None);
+    let key = (file.to_string(), line);
+    if let Some(v) = CACHE.lock().unwrap().get_or_insert_with(Default::default).get(&key) {
+        return v.clone();
+    }
+    let mut cands = vec![file.to_string()];
+    if let Ok(r) = std::env::var("VERIF_REPO") {
+        cands.push(format!("{r}/{file}"));
+    }
+    cands.push(format!("/repo/{file}"));
+    let mut name = "unknown-fn".to_string();
+    for c in cands {
+        if let Ok(text) = std::fs::read_to_string(&c) {
+            let lines: Vec<&str> = text.lines().collect();
+            let mut i = (line as usize).min(lines.len());
+            while i > 0 {
+                i -= 1;
+                if let Some(n) = fn_name_on(lines[i]) {
+                    name = n;
+                    break;
+                }
+            }
+            break;
+        }
+    }
+    CACHE.lock().unwrap().get_or_insert_with(Default::default).insert(key, name.clone());
+    name
+}
+
+fn fn_name_on(l: &str) -> Option<String> {
+    let t = l.trim_start();
+    if t.starts_with("//") {
+        return None;
+    }
+    let i = if t.starts_with("fn ") { 0 } else { t.find(" fn ")? + 1 };
+    let head = &t[..i];
+    if !head.split_whitespace().all(|w| w.starts_with("pub") || matches!(w, "const" | "unsafe" | "async" | "extern" | "\"C\"" | "default")) {
+        return None;
+    }
+    let rest = &t[i + 3..];
+    let n: String = rest.chars().take_while(|c| c.is_ascii_alphanumeric() || *c == '_').collect();
+    if n.is_empty() {
+        None
+    } else {
+        Some(n)
+    }
+}
+
 pub fn is_huge_alloc_msg(msg: &str) -> bool {
     msg.starts_with("capacity overflow") || msg.starts_with("memory allocation of")
 }
@@ -193,21 +248,57 @@ pub fn panic_sig(p: &PanicRec) -> String {
     if is_huge_alloc_msg(&p.msg) {
         return format!("huge-alloc@{fr}");
     }
+    if p.msg.starts_with("nesting depth exceeds limit of") {
+        // every call site of value::assert_depth (#[track_caller]) is the same mechanism: a deliberate
+        // depth guard that refuses by panicking instead of returning an error
+        return "panic:depth-guard:nesting-depth-exceeds-limit-of-N".to_string();
+    }
     if origin == "repo" {
-        format!("panic:{file}:{}", msg_class(&p.msg))
+        format!("panic:{file}:{}:{}", enclosing_fn(&p.file, p.line), msg_class(&p.msg))
     } else {
         format!("panic@{fr}:{}", msg_class(&p.msg))
     }
 }
 
 pub fn panic_json(p: &PanicRec) -> Value {
-    json!({"message": p.msg.chars().take(300).collect::<String>(), "location": format!("{}:{}", norm_file(&p.file).0, p.line), "frame": p.frame})
+    json!({"message": p.msg.chars().take(300).collect::<String>(), "location": format!("{}:{}", norm_file(&p.file).0, p.line), "function": enclosing_fn(&p.file, p.line), "frame": p.frame})
 }
 
 // ------------------------------------------------------------- containment --
 
+static JOURNAL: std::sync::OnceLock<std::fs::File> = std::sync::OnceLock::new();
+static STAGES_ON: std::sync::atomic::AtomicBool = std::sync::atomic::AtomicBool::new(false);
+
+/// Enable / disable stage journaling (one pwrite per stage; used for the nesting
+/// families and replays, where a stack overflow must be attributed to an API).
+pub fn stage_journal(on: bool) {
+    STAGES_ON.store(on, Ordering::Relaxed);
+    if !on {
+        stage_write("");
+    }
+}
+
+fn stage_write(name: &str) {
+    if let Some(f) = JOURNAL.get() {
+        let mut b = [0u8; 40];
+        let n = name.len().min(40);
+        b[..n].copy_from_slice(&name.as_bytes()[..n]);
+        let _ = f.write_at(&b, 24);
+    }
+}
+
+/// Record which API is about to run (no-op unless stage journaling is on).
+#[inline]
+pub fn stage(name: &str) {
+    if STAGES_ON.load(Ordering::Relaxed) {
+        stage_write(name);
+    }
+}
+
 #[derive(Clone, Debug)]
 pub struct Crash {
+    /// API stage journaled last (empty when stage journaling was off)
+    pub stage: String,
     /// "S<signal>", "<exit code>" or "T" (killed by the per-case watchdog)
     pub status: String,
     pub stderr_tail: String,
@@ -255,7 +346,21 @@ pub struct SpaceDef {
     pub chunk: u64,
 }
 
+/// Development aid: VERIF_SPACES=a,b restricts a run to the named sub-spaces (the others get n = 0).
+pub fn only_spaces(defs: &mut [SpaceDef]) {
+    if let Ok(v) = std::env::var("VERIF_SPACES") {
+        let keep: Vec<&str> = v.split(',').collect();
+        for d in defs.iter_mut() {
+            if !keep.contains(&d.name.as_str()) {
+                d.n = 0;
+            }
+        }
+    }
+}
+
 pub struct Contain {
+    /// run workers with RUST_BACKTRACE=1 (only `probe_frame` does)
+    pub backtrace: bool,
     pub tier: String,
     pub threads: usize,
     pub rlimit_as: u64,
@@ -265,7 +370,7 @@ pub struct Contain {
 
 impl Contain {
     pub fn from_ctx(ctx: &Ctx) -> Self {
-        Contain { tier: ctx.tier.clone(), threads: ctx.threads.max(1), rlimit_as: 3 << 30, case_timeout_s: if ctx.quick() { 10.0 } else { 20.0 }, stack_bytes: 8 << 20 }
+        Contain { backtrace: false, tier: ctx.tier.clone(), threads: ctx.threads.max(1), rlimit_as: 2 << 30, case_timeout_s: if ctx.quick() { 5.0 } else { 10.0 }, stack_bytes: 8 << 20 }
     }
 }
 
@@ -348,7 +453,7 @@ pub fn report_from_wire(v: &Value) -> Report {
 
 /// Worker entry point: never returns. `run_idx(space, idx, rep)` runs one enumerated
 /// case, `run_case(case, rep)` one recorded case (replay).
-pub fn worker_main(run_idx: &(dyn Fn(usize, u64, &mut Report) + Sync), run_case: &(dyn Fn(&Value, &mut Report) + Sync)) -> ! {
+pub fn worker_main(init: &dyn Fn(), run_idx: &(dyn Fn(usize, u64, &mut Report) + Sync), run_case: &(dyn Fn(&Value, &mut Report) + Sync)) -> ! {
     install_hook();
     let journal = arg_of("--journal").expect("--journal");
     let rl: u64 = arg_of("--rlimit-as").and_then(|s| s.parse().ok()).unwrap_or(0);
@@ -362,7 +467,10 @@ pub fn worker_main(run_idx: &(dyn Fn(usize, u64, &mut Report) + Sync), run_case:
             setrlimit(RLIMIT_AS, &l);
         }
     }
-    let jf = std::fs::OpenOptions::new().write(true).create(true).truncate(false).open(&journal).expect("journal");
+    let jf0 = std::fs::OpenOptions::new().write(true).create(true).truncate(false).open(&journal).expect("journal");
+    let _ = JOURNAL.set(jf0);
+    let jf = JOURNAL.get().unwrap();
+    init();
     let code = std::thread::scope(|s| {
         std::thread::Builder::new()
             .stack_size(stack)
@@ -420,6 +528,24 @@ struct Worker {
     stderr_path: String,
 }
 
+fn read_stage(f: &std::fs::File) -> String {
+    let mut b = [0u8; 40];
+    let _ = f.read_at(&mut b, 24);
+    let n = b.iter().position(|&c| c == 0).unwrap_or(40);
+    String::from_utf8_lossy(&b[..n]).to_string()
+}
+
+/// CPU seconds (user + system) consumed so far by process `pid`.
+fn cpu_seconds(pid: u32) -> f64 {
+    let Ok(s) = std::fs::read_to_string(format!("/proc/{pid}/stat")) else { return 0.0 };
+    let Some(i) = s.rfind(')') else { return 0.0 };
+    let f: Vec<&str> = s[i + 1..].split_whitespace().collect();
+    // after the comm field: state is f[0]; utime and stime are fields 14 and 15 of the line = f[11], f[12]
+    let u: f64 = f.get(11).and_then(|x| x.parse().ok()).unwrap_or(0.0);
+    let t: f64 = f.get(12).and_then(|x| x.parse().ok()).unwrap_or(0.0);
+    (u + t) / 100.0
+}
+
 fn read_journal(f: &std::fs::File) -> (u64, u64, u64) {
     let mut b = [0u8; 24];
     let _ = f.read_at(&mut b, 0);
@@ -430,12 +556,13 @@ fn spawn_worker(cfg: &Contain, dir: &str, w: usize, gen: u64) -> Worker {
     let jpath = format!("{dir}/journal-{w}");
     let epath = format!("{dir}/stderr-{w}-{gen}");
     let jf = std::fs::OpenOptions::new().read(true).write(true).create(true).truncate(true).open(&jpath).expect("journal file");
-    let _ = jf.write_at(&[0u8; 24], 0);
+    let _ = jf.write_at(&[0u8; 64], 0);
     let ef = std::fs::File::create(&epath).expect("stderr file");
     let exe = std::env::current_exe().expect("current_exe");
     let mut child = Command::new(exe)
         .args(["--worker", "--tier", &cfg.tier, "--journal", &jpath, "--rlimit-as", &cfg.rlimit_as.to_string(), "--stack", &cfg.stack_bytes.to_string()])
-        .env("RUST_BACKTRACE", "1")
+        // symbolising a backtrace costs ~2 s per death; frames are fetched on demand by `probe_frame`
+        .env("RUST_BACKTRACE", if cfg.backtrace { "1" } else { "0" })
         .stdin(Stdio::piped())
         .stdout(Stdio::piped())
         .stderr(Stdio::from(ef))
@@ -499,7 +626,9 @@ pub fn supervise_one(cfg: &Contain, case: &Value, rep: &mut Report, on_crash: &(
 static DIRSEQ: AtomicU64 = AtomicU64::new(0);
 
 fn run_queue(cfg: &Contain, q: VecDeque<Work>, rep: &mut Report, on_crash: &(dyn Fn(CaseRef<'_>, &Crash, &mut Report) + Sync)) {
-    let base = std::env::var("VERIF_CONTAIN_TMP").unwrap_or_else(|_| std::env::temp_dir().to_string_lossy().to_string());
+    // journals are rewritten once per case: keep them on tmpfs so that dirty-page throttling caused by
+    // other writers on the machine cannot stall a worker (seen as spurious watchdog hits on a disk-backed /tmp)
+    let base = std::env::var("VERIF_CONTAIN_TMP").unwrap_or_else(|_| if std::path::Path::new("/dev/shm").is_dir() { "/dev/shm".to_string() } else { std::env::temp_dir().to_string_lossy().to_string() });
     let dir = format!("{base}/svh-contain-{}-{}", std::process::id(), DIRSEQ.fetch_add(1, Ordering::Relaxed));
     std::fs::create_dir_all(&dir).expect("contain dir");
     let outstanding = AtomicI64::new(q.len() as i64);
@@ -537,7 +666,8 @@ fn run_queue(cfg: &Contain, q: VecDeque<Work>, rep: &mut Report, on_crash: &(dyn
                         Work::One(v) => format!("C {}\n", serde_json::to_string(v).unwrap()),
                     };
                     let sent = wk.child.stdin.as_mut().map(|i| i.write_all(line.as_bytes()).and_then(|_| i.flush()).is_ok()).unwrap_or(false);
-                    let mut last = (read_journal(&wk.journal), Instant::now());
+                    let pid = wk.child.id();
+                    let mut last = ((u64::MAX, u64::MAX, u64::MAX), Instant::now(), cpu_seconds(pid));
                     let mut timed_out = false;
                     let mut result: Option<String> = None;
                     if sent {
@@ -549,10 +679,12 @@ fn run_queue(cfg: &Contain, q: VecDeque<Work>, rep: &mut Report, on_crash: &(dyn
                                 }
                                 Ok(None) | Err(mpsc::RecvTimeoutError::Disconnected) => break,
                                 Err(mpsc::RecvTimeoutError::Timeout) => {
-                                    let j = read_journal(&wk.journal);
+                                    let mut j = read_journal(&wk.journal);
+                                    // a stage change counts as progress (stage journaling on): fold it into the sequence number
+                                    j.2 = j.2.wrapping_mul(1_000_003).wrapping_add(h64(&read_stage(&wk.journal)));
                                     if j != last.0 {
-                                        last = (j, Instant::now());
-                                    } else if last.1.elapsed().as_secs_f64() > cfg.case_timeout_s && !timed_out {
+                                        last = (j, Instant::now(), cpu_seconds(pid));
+                                    } else if !timed_out && (cpu_seconds(pid) - last.2 > cfg.case_timeout_s || last.1.elapsed().as_secs_f64() > 15.0 * cfg.case_timeout_s) {
                                         timed_out = true;
                                         let _ = wk.child.kill();
                                     }
@@ -591,7 +723,7 @@ fn run_queue(cfg: &Contain, q: VecDeque<Work>, rep: &mut Report, on_crash: &(dyn
                         queue.lock().unwrap().push_front(work);
                         continue;
                     }
-                    let crash = Crash { status, stderr_tail: tail, timeout: timed_out };
+                    let crash = Crash { stage: read_stage(&wk.journal), status, stderr_tail: tail, timeout: timed_out };
                     match &work {
                         Work::Range { space, lo, hi } => {
                             assert!(jspace as usize == *space && jidx >= *lo && jidx < *hi, "journal ({jspace},{jidx}) outside the dispatched range ({space},{lo},{hi})");
@@ -626,19 +758,42 @@ fn run_queue(cfg: &Contain, q: VecDeque<Work>, rep: &mut Report, on_crash: &(dyn
     for r in merged.into_inner().unwrap() {
         rep.merge(r);
     }
-    let _ = std::fs::remove_dir_all(&dir);
+    if std::env::var("VERIF_KEEP_CONTAIN").is_err() {
+        let _ = std::fs::remove_dir_all(&dir);
+    } else {
+        eprintln!("contain dir kept: {dir}");
+    }
+}
+
+/// Re-run one recorded case alone with RUST_BACKTRACE=1 and return the innermost frame of the crate
+/// under test found on the dead worker's stderr. Results are cached by `key` (one probe per root-cause
+/// candidate, not per failing operand): a backtrace costs seconds to symbolise.
+pub fn probe_frame(key: &str, tier: &str, rlimit_as: u64, case: &Value) -> String {
+    static CACHE: Mutex<Option<std::collections::HashMap<String, String>>> = Mutex::new(None);
+    if let Some(v) = CACHE.lock().unwrap().get_or_insert_with(Default::default).get(key) {
+        return v.clone();
+    }
+    let cfg = Contain { backtrace: true, tier: tier.to_string(), threads: 1, rlimit_as, case_timeout_s: 30.0, stack_bytes: 8 << 20 };
+    let found: Mutex<Option<String>> = Mutex::new(None);
+    let mut scratch = Report::new();
+    supervise_one(&cfg, case, &mut scratch, &|_c, crash, _r| {
+        *found.lock().unwrap() = first_repo_frame(&crash.stderr_tail);
+    });
+    let fr = found.into_inner().unwrap().unwrap_or_else(|| "unknown-frame".to_string());
+    CACHE.lock().unwrap().get_or_insert_with(Default::default).insert(key.to_string(), fr.clone());
+    fr
 }
 
 /// Signature + evidence for a death that is a violation, or None when it is
 /// undecided (watchdog timeout, allocation refused only because of our own
 /// address-space limit). `seam` names the API / program family that was running.
-pub fn death_verdict(c: &Crash, seam: &str) -> Result<String, String> {
+pub fn death_verdict(c: &Crash, seam: &str, frame: &dyn Fn() -> String) -> Result<String, String> {
     match death_kind(c) {
         DeathKind::Timeout => Err("timeout".into()),
         DeathKind::Alloc(n) if n < IMPOSSIBLE_ALLOC => Err(format!("alloc-under-rlimit:{n}")),
-        DeathKind::Alloc(_) => Ok(format!("huge-alloc@{}", first_repo_frame(&c.stderr_tail).unwrap_or_else(|| "unknown-frame".into()))),
+        DeathKind::Alloc(_) => Ok(format!("huge-alloc@{}", first_repo_frame(&c.stderr_tail).unwrap_or_else(frame))),
         DeathKind::StackOverflow => Ok(format!("stack-overflow:{seam}")),
-        DeathKind::PanicAbort(m) => Ok(format!("panic-abort@{}:{}", first_repo_frame(&c.stderr_tail).unwrap_or_else(|| "unknown-frame".into()), msg_class(m.split(": ").last().unwrap_or(&m)))),
+        DeathKind::PanicAbort(m) => Ok(format!("panic-abort@{}:{}", first_repo_frame(&c.stderr_tail).unwrap_or_else(frame), msg_class(m.split(": ").last().unwrap_or(&m)))),
         DeathKind::Other => Ok(format!("died:{}:{seam}", c.status)),
     }
 }
